@@ -1,1 +1,729 @@
-//! Executable reference semantics (DESIGN.md section 3).
+//! Executable reference semantics of the framework (DESIGN.md section 3, rules R1–R14), written
+//! as a trace-conformance checker: it re-derives, from the public machine definitions and the
+//! inputs of a call, which internal steps must happen in which order, and consumes the step log of
+//! the real call (hook H1) as the source of the *random choices only* (sampled next state, sampled
+//! limit, sampled counter operand), checking each of them against the declared support. Everything
+//! else (which deliveries, in which order, counters, limits, accounting, budgets, signals, action
+//! slots) is computed here and compared.
+
+use maybenot::action::Action;
+use maybenot::constants::{STATE_END, STATE_SIGNAL};
+use maybenot::counter::{Counter, Operation};
+use maybenot::dist::{Dist, DistType};
+use maybenot::event::{Event, TriggerEvent};
+use maybenot::verif::{Snapshot, Step};
+use maybenot::Machine;
+
+use crate::drive::{shape_of, Act};
+use crate::util::VClock;
+
+pub const DAY_US: f64 = 86_400_000_000.0;
+
+#[derive(Clone, Debug, PartialEq, Eq, Hash)]
+pub struct RefMachine {
+    pub state: usize,
+    pub limit: u64,
+    pub padding_sent: u64,
+    pub normal_sent: u64,
+    pub blocked: u64,
+    pub counter_a: u64,
+    pub counter_b: u64,
+}
+
+/// Rule counters: how often each part of the semantics was exercised.
+#[derive(Clone, Debug, Default)]
+pub struct RuleStats {
+    pub deliveries: u64,
+    pub deliveries_to_ended: u64,
+    pub no_transition_declared: u64,
+    pub sampled_none: u64,
+    pub to_end: u64,
+    pub to_signal: u64,
+    pub self_transition: u64,
+    pub state_change: u64,
+    pub limit_sampled: u64,
+    pub counter_updates: u64,
+    pub counter_copy: u64,
+    pub counter_saturated_hi: u64,
+    pub counter_saturated_lo: u64,
+    pub counter_zero: u64,
+    pub counter_zero_no_permit: u64,
+    pub counter_zero_took_precedence: u64,
+    pub scheduled: u64,
+    pub denied_by_limits: u64,
+    pub denied_padding_budget: u64,
+    pub denied_blocking_budget: u64,
+    pub allowed_by_budget: u64,
+    pub allowed_replace_active: u64,
+    pub limit_decrement: u64,
+    pub limit_reached: u64,
+    pub signal_rounds: u64,
+    pub signal_second_round: u64,
+    pub signal_carried_over: u64,
+    pub blocking_end_accounted: u64,
+    pub time_backwards: u64,
+}
+
+#[derive(Clone, Debug)]
+pub struct RefFw<'a> {
+    pub machines: &'a [Machine],
+    pub rt: Vec<RefMachine>,
+    pub pf: f64,
+    pub bf: f64,
+    pub start: u64,
+    pub now: u64,
+    pub normal: u64,
+    pub padding: u64,
+    pub blocked: u64,
+    pub block_active: bool,
+    pub block_started: u64,
+    /// None: nothing pending; Some(None): all; Some(Some(m)): all except m
+    pub pending: Option<Option<usize>>,
+    /// per machine: the state whose action occupies the slot
+    pub slots: Vec<Option<usize>>,
+    pub permits: Vec<(bool, bool)>,
+    pub stats: RuleStats,
+}
+
+struct Cursor<'l> {
+    log: &'l [Step],
+    pos: usize,
+}
+
+impl<'l> Cursor<'l> {
+    fn next(&mut self, want: &str) -> Result<&'l Step, String> {
+        if self.pos >= self.log.len() {
+            return Err(format!("log ended at step {} where the semantics requires {want}", self.pos));
+        }
+        self.pos += 1;
+        Ok(&self.log[self.pos - 1])
+    }
+}
+
+fn clamp_fn(d: &Dist, y: f64) -> f64 {
+    let mut r: f64 = 0.0;
+    r = r.max(y);
+    if d.max > 0.0 {
+        r = r.min(d.max);
+    }
+    r
+}
+
+/// Closed interval of values `Dist::sample` can return (before rounding), from the definition.
+pub fn support(d: &Dist) -> (f64, f64) {
+    let (lo, hi): (f64, f64) = match d.dist {
+        DistType::Uniform { low, high } => (low, high),
+        DistType::Binomial { trials, .. } => (0.0, trials as f64),
+        DistType::Beta { .. } => (0.0, 1.0),
+        DistType::Pareto { scale, .. } => (scale, f64::INFINITY),
+        DistType::Normal { .. } | DistType::SkewNormal { .. } => (f64::NEG_INFINITY, f64::INFINITY),
+        _ => (0.0, f64::INFINITY),
+    };
+    let exact_lo = matches!(d.dist, DistType::Uniform { .. });
+    let lo_b = if exact_lo { clamp_fn(d, lo + d.start) } else { 0.0 };
+    let hi_b = clamp_fn(d, hi + d.start);
+    (lo_b.min(hi_b), hi_b)
+}
+
+/// Is `v` a possible result of `sample().min(cap).round() as u64` (round=true) or
+/// `sample() as u64` (round=false)?
+pub fn in_support(d: &Dist, v: u64, cap: f64, round: bool) -> bool {
+    let (lo, hi) = support(d);
+    let f = |x: f64| -> u64 {
+        let x = x.min(cap);
+        if round {
+            x.round() as u64
+        } else {
+            x as u64
+        }
+    };
+    f(lo) <= v && v <= f(hi)
+}
+
+fn f32_sum_below_one(ts: &[maybenot::state::Trans]) -> bool {
+    let mut s: f32 = 0.0;
+    let mut exact: f64 = 0.0;
+    for t in ts {
+        s += t.1;
+        exact += t.1 as f64;
+    }
+    s < 1.0 || exact < 1.0
+}
+
+impl<'a> RefFw<'a> {
+    /// R12. `log` is the step log right after `Framework::new` (the sampled initial limits).
+    pub fn new(machines: &'a [Machine], pf: f64, bf: f64, start: VClock, log: &[Step]) -> Result<Self, String> {
+        let mut rt = vec![];
+        if log.len() != machines.len() {
+            return Err(format!("construction logged {} steps for {} machines", log.len(), machines.len()));
+        }
+        for (mi, m) in machines.iter().enumerate() {
+            let limit = match &log[mi] {
+                Step::Limit { machine, limit } if *machine == mi => *limit,
+                other => return Err(format!("construction step {mi}: expected Limit for machine {mi}, got {other:?}")),
+            };
+            check_limit(&m.states[0].action, limit, true).map_err(|e| format!("machine {mi} initial limit: {e}"))?;
+            rt.push(RefMachine {
+                state: 0,
+                limit,
+                padding_sent: 0,
+                normal_sent: 0,
+                blocked: 0,
+                counter_a: 0,
+                counter_b: 0,
+            });
+        }
+        Ok(RefFw {
+            machines,
+            rt,
+            pf,
+            bf,
+            start: start.0,
+            now: start.0,
+            normal: 0,
+            padding: 0,
+            blocked: 0,
+            block_active: false,
+            block_started: start.0,
+            pending: None,
+            slots: vec![None; machines.len()],
+            permits: vec![(false, false); machines.len()],
+            stats: RuleStats::default(),
+        })
+    }
+
+    /// R1: one call. Checks the log, the returned actions and the snapshot.
+    pub fn call(
+        &mut self,
+        events: &[TriggerEvent],
+        now: VClock,
+        log: &[Step],
+        actions: &[Act],
+        snap: &Snapshot<VClock>,
+    ) -> Result<(), String> {
+        let n = self.machines.len();
+        for s in self.slots.iter_mut() {
+            *s = None;
+        }
+        for p in self.permits.iter_mut() {
+            *p = (false, false);
+        }
+        if now.0 < self.now {
+            self.stats.time_backwards += 1;
+        }
+        self.now = now.0;
+        let mut cur = Cursor { log, pos: 0 };
+        for (ei, e) in events.iter().enumerate() {
+            self.dispatch(e, &mut cur).map_err(|m| format!("event #{ei} {e:?}: {m}"))?;
+        }
+        // R10: the signal round
+        if let Some(target) = self.pending.take() {
+            match cur.next("SignalRound")? {
+                Step::SignalRound => {}
+                other => return Err(format!("expected SignalRound, log has {other:?}")),
+            }
+            self.stats.signal_rounds += 1;
+            for mi in 0..n {
+                if target == Some(mi) {
+                    continue;
+                }
+                self.deliver(mi, Event::Signal, &mut cur).map_err(|m| format!("signal round, machine {mi}: {m}"))?;
+            }
+            if self.pending.take().is_some() {
+                if let Some(x) = target {
+                    self.stats.signal_second_round += 1;
+                    self.deliver(x, Event::Signal, &mut cur)
+                        .map_err(|m| format!("signal second round, machine {x}: {m}"))?;
+                }
+            }
+            if self.pending.is_some() {
+                self.stats.signal_carried_over += 1;
+            }
+        }
+        if cur.pos != log.len() {
+            return Err(format!(
+                "the call performed {} more internal steps than the semantics prescribes; first extra: {:?}",
+                log.len() - cur.pos,
+                log[cur.pos]
+            ));
+        }
+        // R13: the returned actions are the occupied slots in machine order
+        let expected: Vec<usize> = (0..n).filter(|mi| self.slots[*mi].is_some()).collect();
+        let got: Vec<usize> = actions.iter().map(|a| a.machine).collect();
+        if expected != got {
+            return Err(format!("actions returned for machines {got:?}, semantics prescribes {expected:?}"));
+        }
+        for a in actions {
+            let st = self.slots[a.machine].unwrap();
+            let def = self.machines[a.machine].states[st]
+                .action
+                .as_ref()
+                .ok_or("slot names a state without action")?;
+            check_action(def, a).map_err(|m| format!("action of machine {} (state {st}): {m}", a.machine))?;
+        }
+        self.compare_snapshot(snap)
+    }
+
+    fn dispatch(&mut self, e: &TriggerEvent, cur: &mut Cursor<'_>) -> Result<(), String> {
+        let n = self.machines.len();
+        match e {
+            TriggerEvent::NormalRecv => self.deliver_all(Event::NormalRecv, cur),
+            TriggerEvent::PaddingRecv => self.deliver_all(Event::PaddingRecv, cur),
+            TriggerEvent::TunnelRecv => self.deliver_all(Event::TunnelRecv, cur),
+            TriggerEvent::TunnelSent => self.deliver_all(Event::TunnelSent, cur),
+            TriggerEvent::NormalSent => {
+                self.normal += 1;
+                for mi in 0..n {
+                    self.rt[mi].normal_sent += 1;
+                    self.deliver(mi, Event::NormalSent, cur)?;
+                }
+                Ok(())
+            }
+            TriggerEvent::PaddingSent { machine } => {
+                self.padding += 1;
+                let mi = machine.into_raw();
+                if mi >= n {
+                    return Ok(());
+                }
+                self.rt[mi].padding_sent += 1;
+                let changed = self.deliver(mi, Event::PaddingSent, cur)?;
+                self.completion(mi, changed, cur)
+            }
+            TriggerEvent::BlockingBegin { machine } => {
+                if !self.block_active {
+                    self.block_active = true;
+                    self.block_started = self.now;
+                }
+                for mi in 0..n {
+                    let changed = self.deliver(mi, Event::BlockingBegin, cur)?;
+                    if mi == machine.into_raw() {
+                        self.completion(mi, changed, cur)?;
+                    }
+                }
+                Ok(())
+            }
+            TriggerEvent::BlockingEnd => {
+                let mut blocked = 0u64;
+                if self.block_active {
+                    blocked = self.now.saturating_sub(self.block_started);
+                    self.blocked = self.blocked.saturating_add(blocked);
+                    self.block_active = false;
+                    self.stats.blocking_end_accounted += 1;
+                }
+                for mi in 0..n {
+                    self.rt[mi].blocked = self.rt[mi].blocked.saturating_add(blocked);
+                    self.deliver(mi, Event::BlockingEnd, cur)?;
+                }
+                Ok(())
+            }
+            TriggerEvent::TimerBegin { machine } => {
+                let mi = machine.into_raw();
+                if mi >= n {
+                    return Ok(());
+                }
+                let changed = self.deliver(mi, Event::TimerBegin, cur)?;
+                self.completion(mi, changed, cur)
+            }
+            TriggerEvent::TimerEnd { machine } => {
+                let mi = machine.into_raw();
+                if mi >= n {
+                    return Ok(());
+                }
+                self.deliver(mi, Event::TimerEnd, cur)?;
+                Ok(())
+            }
+        }
+    }
+
+    fn deliver_all(&mut self, ev: Event, cur: &mut Cursor<'_>) -> Result<(), String> {
+        for mi in 0..self.machines.len() {
+            self.deliver(mi, ev, cur)?;
+        }
+        Ok(())
+    }
+
+    /// R11: a completion of machine `mi`'s own action, after the delivery.
+    fn completion(&mut self, mi: usize, changed: bool, cur: &mut Cursor<'_>) -> Result<(), String> {
+        if changed || self.rt[mi].state == STATE_END {
+            return Ok(());
+        }
+        if self.rt[mi].limit > 0 {
+            self.rt[mi].limit -= 1;
+            self.stats.limit_decrement += 1;
+        }
+        let st = self.rt[mi].state;
+        if let Some(a) = &self.machines[mi].states[st].action {
+            if self.rt[mi].limit == 0 && has_limit(a) {
+                match cur.next("Withdrawn")? {
+                    Step::Withdrawn { machine } if *machine == mi => {}
+                    other => return Err(format!("limit of machine {mi} reached: expected Withdrawn, log has {other:?}")),
+                }
+                self.slots[mi] = None;
+                self.stats.limit_reached += 1;
+                self.deliver(mi, Event::LimitReached, cur)?;
+            }
+        }
+        Ok(())
+    }
+
+    /// R3/R4: deliver `ev` to machine `mi`; returns whether the machine changed state.
+    fn deliver(&mut self, mi: usize, ev: Event, cur: &mut Cursor<'_>) -> Result<bool, String> {
+        self.stats.deliveries += 1;
+        let want = format!("Deliver({ev:?}) to machine {mi}");
+        match cur.next(&want)? {
+            Step::Deliver {
+                machine,
+                event,
+                from_state,
+                state_limit,
+                counter_a,
+                counter_b,
+            } => {
+                let r = &self.rt[mi];
+                if *machine != mi || *event != ev {
+                    return Err(format!("expected {want}, log has Deliver({event:?}) to machine {machine}"));
+                }
+                if *from_state != r.state || *state_limit != r.limit || *counter_a != r.counter_a || *counter_b != r.counter_b {
+                    return Err(format!(
+                        "{want}: machine is in (state {from_state}, limit {state_limit}, A {counter_a}, B {counter_b}), semantics prescribes (state {}, limit {}, A {}, B {})",
+                        r.state, r.limit, r.counter_a, r.counter_b
+                    ));
+                }
+            }
+            other => return Err(format!("expected {want}, log has {other:?}")),
+        }
+        if self.rt[mi].state == STATE_END {
+            self.stats.deliveries_to_ended += 1;
+            return Ok(false);
+        }
+        let cur_state = self.rt[mi].state;
+        let trans = self.machines[mi].states[cur_state].get_transitions();
+        let targets = &trans[ev];
+        let next = match cur.next("Sampled")? {
+            Step::Sampled { machine, next } if *machine == mi => *next,
+            other => return Err(format!("{want}: expected Sampled, log has {other:?}")),
+        };
+        let Some(next) = next else {
+            if targets.is_empty() {
+                self.stats.no_transition_declared += 1;
+            } else {
+                if !f32_sum_below_one(targets) {
+                    return Err(format!("{want}: no transition taken although the probabilities sum to 1"));
+                }
+                self.stats.sampled_none += 1;
+            }
+            return Ok(false);
+        };
+        if !targets.iter().any(|t| t.0 == next) {
+            return Err(format!("{want}: moved to {next}, not a declared target of state {cur_state}"));
+        }
+        if next == STATE_END {
+            self.rt[mi].state = STATE_END;
+            self.stats.to_end += 1;
+            return Ok(true);
+        }
+        if next == STATE_SIGNAL {
+            self.stats.to_signal += 1;
+            self.pending = match self.pending {
+                None => Some(Some(mi)),
+                Some(Some(x)) if x == mi => Some(Some(mi)),
+                _ => Some(None),
+            };
+            return Ok(false);
+        }
+        let changed_here = next != cur_state;
+        if changed_here {
+            self.stats.state_change += 1;
+            self.rt[mi].state = next;
+            let limit = match cur.next("Limit")? {
+                Step::Limit { machine, limit } if *machine == mi => *limit,
+                other => return Err(format!("{want}: entering state {next}: expected Limit, log has {other:?}")),
+            };
+            check_limit(&self.machines[mi].states[next].action, limit, false)
+                .map_err(|e| format!("{want}: entering state {next}: {e}"))?;
+            self.rt[mi].limit = limit;
+            self.stats.limit_sampled += 1;
+        } else {
+            self.stats.self_transition += 1;
+        }
+        let verdict = self.limits_verdict(mi);
+        let (allow, cz_changed) = self.update_counters(mi, cur)?;
+        if allow && verdict {
+            match cur.next("Scheduled")? {
+                Step::Scheduled { machine, state } if *machine == mi && *state == next => {}
+                other => return Err(format!("{want}: entered state {next} whose action is allowed: expected Scheduled, log has {other:?}")),
+            }
+            self.slots[mi] = Some(next);
+            self.stats.scheduled += 1;
+        } else if !verdict && self.machines[mi].states[next].action.is_some() {
+            self.stats.denied_by_limits += 1;
+        }
+        Ok(changed_here || cz_changed)
+    }
+
+    /// R5. Returns (may the entered state's action be scheduled, did CounterZero change state).
+    fn update_counters(&mut self, mi: usize, cur: &mut Cursor<'_>) -> Result<(bool, bool), String> {
+        let st = self.rt[mi].state;
+        let spec = self.machines[mi].states[st].counter;
+        let old_a = self.rt[mi].counter_a;
+        let old_b = self.rt[mi].counter_b;
+        let mut zeroed = false;
+        for (is_b, c) in [(false, spec.0), (true, spec.1)] {
+            let Some(c) = c else { continue };
+            let v = match cur.next("CounterOperand")? {
+                Step::CounterOperand { machine, counter_b, value } if *machine == mi && *counter_b == is_b => *value,
+                other => return Err(format!("counter update of machine {mi}: expected CounterOperand(b={is_b}), log has {other:?}")),
+            };
+            let other_old = if is_b { old_a } else { old_b };
+            check_operand(&c, v, other_old).map_err(|e| format!("counter {} of machine {mi}: {e}", if is_b { "B" } else { "A" }))?;
+            if c.copy {
+                self.stats.counter_copy += 1;
+            }
+            let old = if is_b { old_b } else { old_a };
+            let new = match c.operation {
+                Operation::Increment => {
+                    if old.checked_add(v).is_none() {
+                        self.stats.counter_saturated_hi += 1;
+                    }
+                    old.saturating_add(v)
+                }
+                Operation::Decrement => {
+                    if v > old {
+                        self.stats.counter_saturated_lo += 1;
+                    }
+                    old.saturating_sub(v)
+                }
+                Operation::Set => v,
+            };
+            self.stats.counter_updates += 1;
+            if is_b {
+                self.rt[mi].counter_b = new;
+            } else {
+                self.rt[mi].counter_a = new;
+            }
+            if old != 0 && new == 0 {
+                let permit = if is_b { &mut self.permits[mi].1 } else { &mut self.permits[mi].0 };
+                if !*permit {
+                    *permit = true;
+                    zeroed = true;
+                } else {
+                    self.stats.counter_zero_no_permit += 1;
+                }
+            }
+        }
+        if zeroed {
+            self.stats.counter_zero += 1;
+            let pending = self.slots[mi].take();
+            let changed = self.deliver(mi, Event::CounterZero, cur)?;
+            let scheduled = self.slots[mi].is_some();
+            if !scheduled {
+                self.slots[mi] = pending;
+            } else {
+                self.stats.counter_zero_took_precedence += 1;
+            }
+            return Ok((!scheduled, changed));
+        }
+        Ok((true, false))
+    }
+
+    /// R6–R8 for the action of the machine's current state, in the framework's arithmetic (f64
+    /// division of the integer counts; microsecond integers for time).
+    fn limits_verdict(&mut self, mi: usize) -> bool {
+        let m = &self.machines[mi];
+        let r = &self.rt[mi];
+        let Some(a) = &m.states[r.state].action else {
+            return false;
+        };
+        match a {
+            Action::Cancel { .. } => true,
+            Action::UpdateTimer { .. } => r.limit > 0,
+            Action::SendPadding { .. } => {
+                if r.padding_sent < m.allowed_padding_packets {
+                    self.stats.allowed_by_budget += 1;
+                    return r.limit > 0;
+                }
+                if m.max_padding_frac > 0.0 {
+                    let total = r.normal_sent + r.padding_sent;
+                    if total > 0 && r.padding_sent as f64 / total as f64 >= m.max_padding_frac {
+                        self.stats.denied_padding_budget += 1;
+                        return false;
+                    }
+                }
+                if self.pf > 0.0 {
+                    let total = self.normal + self.padding;
+                    if total > 0 && self.padding as f64 / total as f64 >= self.pf {
+                        self.stats.denied_padding_budget += 1;
+                        return false;
+                    }
+                }
+                r.limit > 0
+            }
+            Action::BlockOutgoing { replace, .. } => {
+                if *replace && self.block_active {
+                    self.stats.allowed_replace_active += 1;
+                    return r.limit > 0;
+                }
+                let mut mb = r.blocked;
+                let mut gb = self.blocked;
+                if self.block_active {
+                    let ongoing = self.now.saturating_sub(self.block_started);
+                    mb = mb.saturating_add(ongoing);
+                    gb = gb.saturating_add(ongoing);
+                }
+                if mb < m.allowed_blocked_microsec {
+                    self.stats.allowed_by_budget += 1;
+                    return r.limit > 0;
+                }
+                let elapsed = self.now.saturating_sub(self.start);
+                if m.max_blocking_frac > 0.0 && mb as f64 / elapsed as f64 >= m.max_blocking_frac {
+                    self.stats.denied_blocking_budget += 1;
+                    return false;
+                }
+                if self.bf > 0.0 && gb as f64 / elapsed as f64 >= self.bf {
+                    self.stats.denied_blocking_budget += 1;
+                    return false;
+                }
+                r.limit > 0
+            }
+        }
+    }
+
+    pub fn compare_snapshot(&self, s: &Snapshot<VClock>) -> Result<(), String> {
+        if s.machines.len() != self.rt.len() {
+            return Err("snapshot has a different number of machines".into());
+        }
+        for (mi, (a, b)) in s.machines.iter().zip(self.rt.iter()).enumerate() {
+            let got = RefMachine {
+                state: a.current_state,
+                limit: a.state_limit,
+                padding_sent: a.padding_sent,
+                normal_sent: a.normal_sent,
+                blocked: a.blocking_duration.0,
+                counter_a: a.counter_a,
+                counter_b: a.counter_b,
+            };
+            if &got != b {
+                return Err(format!("state of machine {mi} after the call is {got:?}, semantics prescribes {b:?}"));
+            }
+        }
+        let got = (
+            s.current_time.0,
+            s.normal_sent_packets,
+            s.padding_sent_packets,
+            s.blocking_duration.0,
+            s.blocking_active,
+            s.blocking_started.0,
+            s.signal_pending,
+        );
+        let want = (self.now, self.normal, self.padding, self.blocked, self.block_active, self.block_started, self.pending);
+        if got != want {
+            return Err(format!(
+                "framework state (time, normal, padding, blocked, active, started, pending signal) after the call is {got:?}, semantics prescribes {want:?}"
+            ));
+        }
+        Ok(())
+    }
+
+    pub fn state_key(&self) -> u64 {
+        crate::util::hash_of(&(
+            &self.rt,
+            self.normal,
+            self.padding,
+            self.blocked,
+            self.block_active,
+            self.block_started.wrapping_sub(self.start),
+            self.pending,
+        ))
+    }
+}
+
+pub fn has_limit(a: &Action) -> bool {
+    match a {
+        Action::SendPadding { limit, .. } | Action::BlockOutgoing { limit, .. } | Action::UpdateTimer { limit, .. } => limit.is_some(),
+        Action::Cancel { .. } => false,
+    }
+}
+
+pub fn limit_dist(a: &Action) -> Option<&Dist> {
+    match a {
+        Action::SendPadding { limit, .. } | Action::BlockOutgoing { limit, .. } | Action::UpdateTimer { limit, .. } => limit.as_ref(),
+        Action::Cancel { .. } => None,
+    }
+}
+
+/// The limit observed on entering a state (or at construction).
+fn check_limit(action: &Option<Action>, limit: u64, at_construction: bool) -> Result<(), String> {
+    match action.as_ref().and_then(limit_dist) {
+        Some(d) => {
+            if in_support(d, limit, f64::INFINITY, true) {
+                Ok(())
+            } else {
+                Err(format!("sampled limit {limit} outside the support {:?} of {d:?}", support(d)))
+            }
+        }
+        None => {
+            // no limit: unlimited. A machine starting in a state without action has a limit that can
+            // never matter; both representations are accepted there.
+            if limit == u64::MAX || (at_construction && action.is_none() && limit == 0) {
+                Ok(())
+            } else {
+                Err(format!("limit {limit} for a state without limit (expected unlimited)"))
+            }
+        }
+    }
+}
+
+fn check_operand(c: &Counter, v: u64, other_old: u64) -> Result<(), String> {
+    if c.copy {
+        if v != other_old {
+            return Err(format!("copy operand {v}, the other counter held {other_old} before the update"));
+        }
+        return Ok(());
+    }
+    match &c.dist {
+        None => {
+            if v != 1 {
+                return Err(format!("unit operand expected, got {v}"));
+            }
+        }
+        Some(d) => {
+            if !in_support(d, v, f64::INFINITY, false) {
+                return Err(format!("sampled operand {v} outside the support {:?} of {d:?}", support(d)));
+            }
+        }
+    }
+    Ok(())
+}
+
+/// R9/R13: a returned action against the defining state's action.
+pub fn check_action(def: &Action, a: &Act) -> Result<(), String> {
+    let (k, by, rp, tm) = shape_of(def);
+    if (a.kind, a.bypass, a.replace, a.timer) != (k, by, rp, tm) {
+        return Err(format!(
+            "returned (kind {}, bypass {}, replace {}, timer {}) but the state defines (kind {k}, bypass {by}, replace {rp}, timer {tm})",
+            a.kind, a.bypass, a.replace, a.timer
+        ));
+    }
+    match def {
+        Action::Cancel { .. } => {}
+        Action::SendPadding { timeout, .. } => {
+            if !in_support(timeout, a.timeout, DAY_US, true) {
+                return Err(format!("timeout {} outside the support of {timeout:?}", a.timeout));
+            }
+        }
+        Action::BlockOutgoing { timeout, duration, .. } => {
+            if !in_support(timeout, a.timeout, DAY_US, true) {
+                return Err(format!("timeout {} outside the support of {timeout:?}", a.timeout));
+            }
+            if !in_support(duration, a.duration, DAY_US, true) {
+                return Err(format!("duration {} outside the support of {duration:?}", a.duration));
+            }
+        }
+        Action::UpdateTimer { duration, .. } => {
+            if !in_support(duration, a.duration, DAY_US, true) {
+                return Err(format!("duration {} outside the support of {duration:?}", a.duration));
+            }
+        }
+    }
+    Ok(())
+}
